@@ -126,6 +126,30 @@ func VH_stree_BulkHeight() {
 	vAssert(vAPIDepth(t.Root()) == vFloorLog2(n), "New from n distinct keys has height floor(log2 n)")
 }
 
+// VH_stree_LimitTable: the depth limit used by insertion is never above the
+// property's logarithm and never below floor(log2 n) (which the rebuild
+// argument needs), for every balance factor in the job's range. This is the
+// lemma the inductive height step rests on; the real limitFunc is executed.
+func VH_stree_LimitTable() {
+	lo, hi := vCase("lo"), vCase("hi")
+	ns := []int{1, 2, 3, 4, 5, 6, 7, 8, 9, 10, 12, 15, 16, 17, 20, 31, 32, 33, 50, 63, 64, 65, 100, 127, 128, 129, 255, 256, 257, 500, 1000, 1023, 1024, 1025, 4095, 4096, 4097, 10000, 65536, 1000000}
+	for beta := lo; beta <= hi; beta++ {
+		f := limitFunc(beta)
+		prev := 0
+		for _, n := range ns {
+			l := f(n)
+			vAssert(l >= vFloorLog2(n), "limit(n) is at least floor(log2 n)")
+			vAssert(l >= prev, "limit is monotone in n")
+			prev = l
+			if beta < 1000 {
+				// l <= log_{2000/(1000+beta)} n  <=>  2000^l <= n*(1000+beta)^l
+				vAssert(vDepthBoundOK(beta, n, l+1), "limit(n) does not exceed the logarithm of the property")
+			}
+		}
+	}
+	vCover("limit-table")
+}
+
 func VT_stree_limits() {
 	for _, beta := range []int{0, 1, 250, 500, 750, 998, 999, 1000} {
 		f := limitFunc(beta)
